@@ -130,22 +130,26 @@ Definition firstLast (ss : list pS) : option (Z * Z) :=
   end.
 
 (** The widening of [startPeriodNr, endPeriodNr] so that the first and the last listed segment of
-    every AdaptationSet with a SegmentTimeline have their period ([int(first / periodTicks)]). *)
-Fixpoint widenRange (periodDur : Z) (ases : list asIn) (k0 k1 : Z) : res (Z * Z) :=
+    every AdaptationSet with a SegmentTimeline have their period ([int(first / periodTicks)]) -
+    bounded (commit ea1922e): a candidate below [kmin] = startPeriodNr - 1 or above [kmax] (the
+    period of now + availabilityTimeOffset) is ignored, whatever the timeline says. *)
+Fixpoint widenRange (periodDur : Z) (ases : list asIn) (kmin kmax : Z) (k0 k1 : Z) : res (Z * Z) :=
   match ases with
   | [] => Ok (k0, k1)
   | a :: rest =>
     match a_tl a with
-    | None => widenRange periodDur rest k0 k1
+    | None => widenRange periodDur rest kmin kmax k0 k1
     | Some ss =>
       match firstLast ss with
-      | None => widenRange periodDur rest k0 k1
+      | None => widenRange periodDur rest kmin kmax k0 k1
       | Some (f, l) =>
         let pt := u64 (u64 periodDur * u64 (tsOf a)) in
         if pt =? 0 then Panic "splitPeriod: integer divide by zero" else
         let pf := i64 (f / pt) in
         let pl := i64 (l / pt) in
-        widenRange periodDur rest (if pf <? k0 then pf else k0) (if pl >? k1 then pl else k1)
+        widenRange periodDur rest kmin kmax
+                   (if (pf <? k0) && (pf >=? kmin) then pf else k0)
+                   (if (pl >? k1) && (pl <=? kmax) then pl else k1)
       end
     end
   end.
@@ -188,9 +192,18 @@ Definition periodOf (ng : bool) (mode : mpdType) (cont : bool) (snr : Z) (period
   do out <- mapM (splitAS ng mode cont snr pNr periodDur) ases;
   Ok {| pd_nr := pNr; pd_start := pNr * periodDur; pd_as := out |}.
 
-Definition rangeOf (widen : bool) (mode : mpdType) (periodDur : Z) (ases : list asIn) (k0 k1 : Z) : res (Z * Z) :=
-  if widen && negb (match mode with MNumber => true | _ => false end)
-  then widenRange periodDur ases k0 k1 else Ok (k0, k1).
+Definition rangeOf (widen : option Z) (mode : mpdType) (periodDur : Z) (ases : list asIn) (k0 k1 kmin kmax : Z) : res (Z * Z) :=
+  match widen, mode with
+  | None, _ | _, MNumber => Ok (k0, k1)
+  | Some _, _ => widenRange periodDur ases kmin kmax k0 k1
+  end.
+(** [widen = Some atoMS]: the tree contains the widening repair; [atoMS] = round(1000 * ato) of a
+    finite positive availabilityTimeOffset, else 0.  The upper bound of the widened range: *)
+Definition kmaxOf (widen : option Z) (periodDur astMS nowMS k1 : Z) : Z :=
+  match widen with
+  | Some atoMS => if atoMS >? 0 then Z.quot (nowMS + atoMS - astMS) (periodDur * 1000) else k1
+  | None => k1
+  end.
 
 (** [splitPeriod] for [cfg.PeriodsPerHour = &pph]; [astMS = cfg.StartTimeS*1000], [snr =
     cfg.getStartNr()]; [startTimeMS]/[nowMS] are the wrapTimes fields.  [widen]: the tree contains
@@ -198,7 +211,7 @@ Definition rangeOf (widen : bool) (mode : mpdType) (periodDur : Z) (ases : list 
     harness; [false] = the code before that repair).  Periods are counted from
     availabilityStartTime (repository commit 961c9dc), the $Number$ startNumber of a period
     includes the configured start number (bde286d). *)
-Definition splitPeriod (ng widen : bool) (pph segDurMS : Z) (mode : mpdType) (cont : bool) (astMS snr : Z) (startTimeMS nowMS : Z)
+Definition splitPeriod (ng : bool) (widen : option Z) (pph segDurMS : Z) (mode : mpdType) (cont : bool) (astMS snr : Z) (startTimeMS nowMS : Z)
            (ases : list asIn) : res (list period) :=
   if pph =? 0 then Panic "splitPeriod: integer divide by zero" else
   let periodDur := Z.quot 3600 pph in
@@ -206,8 +219,9 @@ Definition splitPeriod (ng widen : bool) (pph segDurMS : Z) (mode : mpdType) (co
   if negb (Z.rem (periodDur * 1000) segDurMS =? 0) then
     Err rejectMsg else
   if periodDur * 1000 =? 0 then Panic "splitPeriod: integer divide by zero" else
-  do range <- rangeOf widen mode periodDur ases (Z.quot (startTimeMS - astMS) (periodDur * 1000))
-                                               (Z.quot (nowMS - astMS) (periodDur * 1000));
+  let k0 := Z.quot (startTimeMS - astMS) (periodDur * 1000) in
+  let k1 := Z.quot (nowMS - astMS) (periodDur * 1000) in
+  do range <- rangeOf widen mode periodDur ases k0 k1 (k0 - 1) (kmaxOf widen periodDur astMS nowMS k1);
   let startPeriodNr := fst range in
   let endPeriodNr := snd range in
   (* make([]*m.Period, 0, nrPeriods) *)
@@ -227,7 +241,7 @@ Definition pphRangeMsg : string := "periods per hour must be in the range 1-3600
     of periods-per-hour (commit 9fbd9f7; answered 400), then splitPeriod with the wrap times, and
     the publishTime that replaces the single-period one in $Number$ mode ([None]: publishTime
     left as computed before).  [startNr c] is cfg.getStartNr(). *)
-Definition livePeriods (ng widen : bool) (loopMS : Z) (c : tcfg) (nowMS tsbdMS : Z) (pph segDurMS : Z) (mode : mpdType)
+Definition livePeriods (ng : bool) (widen : option Z) (loopMS : Z) (c : tcfg) (nowMS tsbdMS : Z) (pph segDurMS : Z) (mode : mpdType)
            (cont : bool) (ases : list asIn) : res (list period * option Z) :=
   if (pph <=? 0) || (3600 <? pph) then Err pphRangeMsg else
   let wt := calcWrapTimes loopMS c nowMS tsbdMS in
@@ -245,7 +259,7 @@ Definition liveEndMS (nowMS : Z) (stopS : option Z) : Z :=
   | Some s => if s * 1000 <? nowMS then s * 1000 else nowMS
   | None => nowMS
   end.
-Definition livePeriodsStop (ng widen : bool) (loopMS : Z) (c : tcfg) (nowMS : Z) (stopS : option Z) (tsbdMS : Z)
+Definition livePeriodsStop (ng : bool) (widen : option Z) (loopMS : Z) (c : tcfg) (nowMS : Z) (stopS : option Z) (tsbdMS : Z)
            (pph segDurMS : Z) (mode : mpdType) (cont : bool) (ases : list asIn) : res (list period * option Z) :=
   livePeriods ng widen loopMS c (liveEndMS nowMS stopS) tsbdMS pph segDurMS mode cont ases.
 
